@@ -62,27 +62,28 @@ open Chewing Chewing.C04 Chewing.C05 Chewing.C06
 
 variable {D L : Type} {env : Env D L} {G : D → Prop}
 
-/-- **C01, one operation (partial).**  `hv`: arguments the C layer validates; `hk`: not the known class
-    F02/F03; `hc`: not `jump_to_*_selection_point` on an open phrase list. -/
+/-- **C01, one operation (partial: the known class F02/F03 is excluded, nothing else).**  `hv`: arguments
+    the C layer validates; `hk`: not the known class F02/F03.  Every public operation of the editor is
+    covered, also `jump_to_*_selection_point` on an open phrase list (the former `Covered` restriction is gone). -/
 theorem C01_partial (hE : EnvOK env G) (e : Editor D L) (op : Op L) (hi : EditorInv env G e) (hv : OpValid op)
-    (hk : ¬ Known env e op) (hc : Covered e op) :
+    (hk : ¬ Known env e op) :
     ∃ e', e.apply env op = .ok e' ∧ EditorInv env G e' :=
-  apply_ok hE hi op hv hk hc
+  apply_ok hE hi op hv hk
 
 /-- … in the words of the property: the call does not panic … -/
 theorem no_panic (hE : EnvOK env G) (e : Editor D L) (op : Op L) (hi : EditorInv env G e) (hv : OpValid op)
-    (hk : ¬ Known env e op) (hc : Covered e op) (site : String) : e.apply env op ≠ .panic site :=
-  (apply_ok hE hi op hv hk hc).not_panic.1 site
+    (hk : ¬ Known env e op) (site : String) : e.apply env op ≠ .panic site :=
+  (apply_ok hE hi op hv hk).not_panic.1 site
 
 /-- … and every loop finishes within the fuel the model supplies (linear in the buffer length) -/
 theorem no_hang (hE : EnvOK env G) (e : Editor D L) (op : Op L) (hi : EditorInv env G e) (hv : OpValid op)
-    (hk : ¬ Known env e op) (hc : Covered e op) : e.apply env op ≠ .outOfFuel :=
-  (apply_ok hE hi op hv hk hc).not_panic.2
+    (hk : ¬ Known env e op) : e.apply env op ≠ .outOfFuel :=
+  (apply_ok hE hi op hv hk).not_panic.2
 
-/-- a history all of whose steps are valid, outside the known class and covered (evaluated along the run) -/
+/-- a history all of whose steps are valid and outside the known class (evaluated along the run) -/
 def Allowed (env : Env D L) : Editor D L → List (Op L) → Prop
   | _, [] => True
-  | e, op :: ops => OpValid op ∧ ¬ Known env e op ∧ Covered e op ∧ ∀ e', e.apply env op = .ok e' → Allowed env e' ops
+  | e, op :: ops => OpValid op ∧ ¬ Known env e op ∧ ∀ e', e.apply env op = .ok e' → Allowed env e' ops
 
 /-- **C01, every history (partial).** -/
 theorem C01_partial_run (hE : EnvOK env G) (ops : List (Op L)) :
@@ -91,17 +92,18 @@ theorem C01_partial_run (hE : EnvOK env G) (ops : List (Op L)) :
   | nil => intro e hi _; exact ⟨e, rfl, hi⟩
   | cons op ops ih =>
     intro e hi ha
-    obtain ⟨hv, hk, hc, hrest⟩ := ha
-    obtain ⟨e1, h1, hi1⟩ := apply_ok hE hi op hv hk hc
+    obtain ⟨hv, hk, hrest⟩ := ha
+    obtain ⟨e1, h1, hi1⟩ := apply_ok hE hi op hv hk
     obtain ⟨e2, h2, hi2⟩ := ih e1 hi1 (hrest e1 h1)
     exact ⟨e2, by simp only [Editor.run]; rw [h1]; exact h2, hi2⟩
 
-/-- operations that can never be in the known class and are always covered: key events (any code,
-    any modifiers), `select(n)`, `start_selecting`, `cancel_selecting`, `commit`, `clear` (reset), `ack`,
-    `clear_syllable_editor`, `set_syllable_editor` (keyboard-layout switch at any moment), `learn_phrase` -/
+/-- operations that can never be in the known class: key events (any code, any modifiers), `select(n)`,
+    `start_selecting`, `cancel_selecting`, `commit`, `clear` (reset), `ack`, `clear_syllable_editor`,
+    `set_syllable_editor` (keyboard-layout switch at any moment), `learn_phrase`, and the four
+    `jump_to_*_selection_point` calls -/
 def Plain : Op L → Prop
   | .key _ | .select _ | .startSelecting | .cancelSelecting | .commit | .clear | .ack | .clearSyl
-  | .setLayout _ | .learn _ _ => True
+  | .setLayout _ | .learn _ _ | .jump _ => True
   | _ => False
 
 theorem allowed_of_plain (ops : List (Op L)) : ∀ e : Editor D L, (∀ op ∈ ops, Plain op) → Allowed env e ops := by
@@ -111,9 +113,9 @@ theorem allowed_of_plain (ops : List (Op L)) : ∀ e : Editor D L, (∀ op ∈ o
     intro e h
     have hp := h op (List.mem_cons_self ..)
     have hrest := fun e' (_ : e.apply env op = .ok e') => ih e' (fun o ho => h o (List.mem_cons_of_mem _ ho))
-    cases op <;> first | exact ⟨trivial, fun hk => hk, trivial, hrest⟩ | exact absurd hp (fun hh => hh)
+    cases op <;> first | exact ⟨trivial, fun hk => hk, hrest⟩ | exact absurd hp (fun hh => hh)
 
-/-- **C01 for histories of keys, candidate choices, commits, resets, layout switches and learn calls**:
+/-- **C01 for histories of keys, candidate choices, jumps, commits, resets, layout switches and learn calls**:
     from every state satisfying the invariant NO such history panics or hangs — no exclusion at all -/
 theorem C01_plain_histories (hE : EnvOK env G) (e : Editor D L) (hi : EditorInv env G e) (ops : List (Op L))
     (hp : ∀ op ∈ ops, Plain op) : ∃ e', e.run env ops = .ok e' ∧ EditorInv env G e' :=
@@ -152,10 +154,25 @@ theorem engines_satisfy_convert_ok {pick : Nat → List Conv.Path → Nat} (hp :
     OkAnd (fun paths => paths ≠ [] ∧ ∀ p ∈ paths, PathOK c p) (Conv.convert pick (toEngine k) d c) :=
   convert_ok_of_C03 hp hd hw hf k (compValid_of_cinv hi) hlen hword
 
-/-- the statement the package aims at: `C01_partial` without the `Covered` restriction -/
+/-- the statement the package aimed at while `jump_to_*_selection_point` on an open phrase list was outside
+    the theorems (predicate `Covered`, now deleted): one operation, no restriction but the known class -/
 def C01_target : Prop :=
   ∀ (D L : Type) (env : Env D L) (G : D → Prop), EnvOK env G → ∀ (e : Editor D L) (op : Op L),
     EditorInv env G e → OpValid op → ¬ Known env e op → ∃ e', e.apply env op = .ok e' ∧ EditorInv env G e'
+
+/-- **… reached**: every public operation of the editor, in every state satisfying the invariant -/
+theorem C01_target_holds : C01_target :=
+  fun _ _ _ _ hE e op hi hv hk => apply_ok hE hi op hv hk
+
+/-- **`jump_to_{first,last,next,prev}_selection_point`** (`chewing_cand_list_*`) never panic or hang and keep
+    the invariant, in every state — also on an open phrase list (`Proofs/C01Jump.lean`: the searches stay on
+    the run of syllables around the position the list was opened at; fuel sufficiency: every round of
+    `next_selection_point` shortens the range, every round of `prev_selection_point` moves one symbol
+    towards an end of the buffer, `jump_to_last` shortens the range in every round) -/
+theorem jump_never_panics (e : Editor D L) (hi : EditorInv env G e) (w : Nat) :
+    ∃ e' okk, e.jump env w = .ok (e', okk) ∧ EditorInv env G e' := by
+  obtain ⟨⟨e', b⟩, hq, h1⟩ := jump_api_ok hi w
+  exact ⟨e', b, hq, h1⟩
 
 /-- the property as worded, over histories: from a fresh state NO sequence of (valid) public operations
     panics or hangs -/
@@ -313,14 +330,14 @@ theorem ok_unique {α : Type} {r : Outcome α} {a b : α} (h1 : r = .ok a) (h2 :
   Outcome.ok.inj (h1.symm.trans h2)
 
 theorem allowed_cons {e : Editor D L} {op : Op L} {ops : List (Op L)} (h1 : OpValid op) (h2 : ¬ Known env e op)
-    (h3 : Covered e op) (h4 : ∀ e', e.apply env op = .ok e' → Allowed env e' ops) : Allowed env e (op :: ops) :=
-  ⟨h1, h2, h3, h4⟩
+    (h4 : ∀ e', e.apply env op = .ok e' → Allowed env e' ops) : Allowed env e (op :: ops) :=
+  ⟨h1, h2, h4⟩
 
 theorem allowed_two_keys {e : Editor D L} {k1 k2 : KeyEvent} {rest : List (Op L)}
     (hr : ∀ e1 e2, e.apply env (.key k1) = .ok e1 → e1.apply env (.key k2) = .ok e2 → Allowed env e2 rest) :
     Allowed env e (.key k1 :: .key k2 :: rest) :=
-  allowed_cons trivial (fun h => h) trivial fun e1 he1 =>
-    allowed_cons trivial (fun h => h) trivial fun e2 he2 => hr e1 e2 he1 he2
+  allowed_cons trivial (fun h => h) fun e1 he1 =>
+    allowed_cons trivial (fun h => h) fun e2 he2 => hr e1 e2 he1 he2
 
 /-- the engine switch of the F02 history is in the known class: the state right before it satisfies
     the invariant, and `Known` holds of the switch -/
@@ -377,9 +394,9 @@ example : ∃ e', (stdEditor [3]).run toyEnv [.key keyJ, .key keyJ, .startSelect
   obtain ⟨e', he, hi⟩ := C01_partial_run toyEnv_ok [.key keyJ, .key keyJ, .startSelecting, .cancelSelecting, .commit]
     (stdEditor [3]) (stdEditor_inv [3])
     (allowed_two_keys (fun _ e2 _ _ =>
-      allowed_cons trivial (fun h => h) trivial (fun e3 _ =>
-        allowed_cons trivial (fun h => h) trivial (fun e4 _ =>
-          allowed_cons trivial (fun h => h) trivial (fun _ _ => trivial)))))
+      allowed_cons trivial (fun h => h) (fun e3 _ =>
+        allowed_cons trivial (fun h => h) (fun e4 _ =>
+          allowed_cons trivial (fun h => h) (fun _ _ => trivial)))))
   obtain ⟨e0, he0, hc0⟩ : ∃ e0, (stdEditor [3]).run toyEnv [.key keyJ, .key keyJ, .startSelecting, .cancelSelecting, .commit] = .ok e0 ∧
       e0.shared.commitBuf = [3] := ⟨_, rfl, rfl⟩
   have := ok_unique he0 he
